@@ -7,6 +7,7 @@ import (
 	"fmt"
 	"reflect"
 	"strings"
+	"sync/atomic"
 	"time"
 
 	"github.com/antonmedv/expr"
@@ -84,12 +85,23 @@ type Got struct {
 	Calls  []CallRec `json:"calls"`
 	GoType string    `json:"gotype,omitempty"`
 	rt     reflect.Type
+	raw    interface{} // the result itself (identity of what it is made of: C06)
 }
 
 const watchdog = 20 * time.Second
 
+type restartSentinel struct{}
+
+// hangSeen: some guarded execution of this process outlived the watchdog (and is still running)
+var hangSeen atomic.Bool
+
 // guarded runs f under recover and a watchdog.
 func guarded(f func()) (panicMsg string, hang bool) {
+	if hangSeen.Load() {
+		// an earlier execution of this process is still running away with the processor and the memory: nothing more
+		// is executed here; the replay loop hands over to a fresh process (the rest of this case is not executed)
+		panic(restartSentinel{})
+	}
 	done := make(chan string, 1)
 	go func() {
 		defer func() {
@@ -107,6 +119,7 @@ func guarded(f func()) (panicMsg string, hang bool) {
 	case msg := <-done:
 		return msg, false
 	case <-t.C:
+		hangSeen.Store(true)
 		return "", true
 	}
 }
@@ -215,5 +228,6 @@ func RunMode(src string, prog *vm.Program, m Mode, e *Env, lg *Log) Got {
 	g.V = &v
 	g.GoType = fmt.Sprintf("%T", out)
 	g.rt = reflect.TypeOf(out)
+	g.raw = out
 	return g
 }
